@@ -4,7 +4,7 @@
 # /verif/seeded/<Cxx>-<x>/ and runs the given checks (default: the property's own) against it.
 set -u
 P="$1"; X="$2"; shift 2
-PROP="${P/H/C}"
+PROP="C${P:1}"
 CHECKS="${*:-$PROP}"
 WT=/tmp/wt/$P
 D=$WT/seeded
@@ -39,8 +39,8 @@ done
 python3 - "$P" "$X" "$OUT" "$SUITE" "$SUITEF" "$DEMO_WITH" "$DEMO_WITHOUT" "$RES" <<'PY'
 import sys, json
 p,x,out,suite,suitef,dw,dwo,res=sys.argv[1:9]
-hard=p.startswith("H"); p=p.replace("H","C")
-json.dump({"property":p,"round":("2 (hard mode: size thresholds / conjunctions / long histories)" if hard else "1"),"variant":x,"source":"independent sub-agent given only the property text and a scratch worktree",
+hard=p.startswith("H"); cross=p.startswith("X"); p="C"+p[1:]
+json.dump({"property":p,"round":("hard mode: size thresholds / conjunctions / long histories" if hard else ("cross-module mode: defect outside the obvious module, route- or entry-point-specific" if cross else "1")),"variant":x,"source":"independent sub-agent given only the property text and a scratch worktree",
  "existing_suite_with_change":suite,"existing_suite_with_change_all_features":suitef,
  "demo_with_change":dw.strip(),"demo_without_change":dwo.strip(),"checks_run":res.strip(),
  "needs_to_manifest":"see NOTES.md (written by the sub-agent)"}, open(out+"/meta.json","w"), indent=1)
